@@ -38,7 +38,7 @@ import json
 from mc import core, explorer
 
 NEEDS_BRIDGEPOINT = False
-BUDGET_S = {'quick': 1800, 'thorough': 7200}
+BUDGET_S = {'quick': 3600, 'thorough': 14400}
 ASSUMPTIONS = [
     'one schema family (two classes, one association, identifiers) in three chunks; every chunk accepted at most once, in '
     'any order (instances before their schema included); names and values from one of three isomorphic palettes (VERIF_SEED)',
